@@ -295,6 +295,10 @@ func runCase(line string, obs *vh.LineWriter, st *vh.Stats) {
 	if i := strings.Index(rest, "|"); i >= 0 {
 		head, body = strings.TrimSpace(rest[:i]), strings.TrimSpace(rest[i+1:])
 	}
+	if strings.HasPrefix(head, "sm ") {
+		runSMCase(id, head, body, line, obs, st)
+		return
+	}
 	ordered := strings.Contains(head, "ordered=1")
 	m := hooks.NewMembership(1, 1, ordered)
 	twin := hooks.NewMembership(77, 5, ordered) // a second replica of another shard/replica id fed the same log
@@ -413,12 +417,19 @@ func main() {
 		for i := 0; i < n; i++ {
 			w.Printf("g%d %s\n", i, genCase(r))
 		}
+		// restart dimension: real rsm.StateMachine over an on disk state machine
+		for i := 0; i < n/6; i++ {
+			w.Printf("s%d %s\n", i, genSMCase(r))
+		}
 		w.Close()
 	case "run":
 		st := vh.NewStats("sequences of 1..60 config change requests on the real rsm.membership (ordered on/off): replica ids 1..8 plus 0 and 2^64-1, " +
 			"addresses from a pool of 7 hosts in case/white-space variants plus empty/blank, types 0..3 plus invalid, ConfigChangeId current/stale/concurrent duplicates, " +
 			"retries of earlier requests, get/set snapshots and installed memberships in between. non-trivial = the case has at least one accepted change AND " +
-			"at least one rejection by a rule other than the ordered-id check; distinct by full case text")
+			"at least one rejection by a rule other than the ordered-id check; distinct by full case text. " +
+			"restart dimension (cases s*, n/6 of them): a real rsm.StateMachine over an on disk state machine applies a log of config changes and updates, takes metadata-only snapshot records, " +
+			"restarts (Open = index of the last update the disk kept, optionally lagging), recovers from the latest record and replays the log; compared after every entry and every restart with a never-restarted twin " +
+			"and with the model (sm_run); non-trivial there = at least one restart replayed a config change at or below the on disk index")
 		obs := vh.Create(a.Out + "/impl.obs")
 		for _, line := range vh.ReadLines(a.Cases) {
 			runCase(line, obs, st)
